@@ -2389,6 +2389,16 @@ class Interp:
             seq = self.iterate(args[0])
             return _Gen(seq[slice(*args[1:])])
         if name == "chain":
+            if any(isinstance(a, (_Endless, _SteppedGen)) for a in args):
+                # a chain that runs into an endless operand is endless itself: drawn lazily
+                def walk(args=list(args)):
+                    for a in args:
+                        if isinstance(a, (_Endless, _SteppedGen)):
+                            yield from a.lazy()
+                        else:
+                            yield from self.iterate(a)
+                g_ = walk()
+                return _Endless(lambda i, g_=g_: next(g_))
             out = []
             for a in args:
                 out.extend(self.iterate(a))
